@@ -222,74 +222,87 @@ Section Clauses.
   Definition all_ranks (o : obs) (p : Z -> robs -> bool) : bool :=
     forallb (fun rr => p (fst rr) (snd rr)) (ranks_of o).
 
+  Definition is_nil {A} (l : list A) : bool := match l with [] => true | _ => false end.
+
   (* the executable received exactly the described argument list *)
-  Definition ok_argv (o : obs) : bool :=
-    all_ranks o (fun _ ro => match o_probe ro with
-                            | Some (ws, _, _) => eqb_list bytes_eqb ws (t_args t)
-                            | None => true end).
+  Definition okr_argv (r : Z) (ro : robs) : bool :=
+    match o_probe ro with
+    | Some (ws, _, _) => eqb_list bytes_eqb ws (t_args t)
+    | None => true end.
 
   (* every described environment variable has the described value *)
-  Definition ok_env (o : obs) : bool :=
-    all_ranks o (fun r ro =>
-      match o_probe ro with
-      | Some (_, _, e) =>
-          forallb (fun kv => negb (safe (snd kv)) || bmem (fst kv) (exported_names c t r)
-                             || eqb_option bytes_eqb (lookup (fst kv) e) (Some (snd kv))) (t_env t)
-      | None => true end).
+  Definition okr_env (r : Z) (ro : robs) : bool :=
+    match o_probe ro with
+    | Some (_, _, e) =>
+        forallb (fun kv => negb (safe (snd kv)) || bmem (fst kv) (exported_names c t r)
+                           || eqb_option bytes_eqb (lookup (fst kv) e) (Some (snd kv))) (t_env t)
+    | None => true end.
 
   (* the RP_* variables describe this task *)
-  Definition ok_rp_env (o : obs) : bool :=
-    all_ranks o (fun r ro =>
-      match o_probe ro with
-      | Some (_, _, e) =>
-          let skip k := bmem k (exported_names c t r) || bmem k (map fst (t_env t)) in
-          forallb (fun kv => skip (fst kv) || eqb_option bytes_eqb (lookup (fst kv) e) (Some (snd kv)))
-                  (rp_expected c t r)
-          && forallb (fun kv => skip (fst kv)
-                                || match lookup (fst kv) e with
-                                   | Some v => bytes_eqb (strip_slash (squeeze v)) (snd kv)
-                                   | None => false end)
-                     (sandboxes_expected c t)
-      | None => true end).
+  Definition okr_rp_env (r : Z) (ro : robs) : bool :=
+    match o_probe ro with
+    | Some (_, _, e) =>
+        let skip k := bmem k (exported_names c t r) || bmem k (map fst (t_env t)) in
+        forallb (fun kv => skip (fst kv) || eqb_option bytes_eqb (lookup (fst kv) e) (Some (snd kv)))
+                (rp_expected c t r)
+        && forallb (fun kv => skip (fst kv)
+                              || match lookup (fst kv) e with
+                                 | Some v => bytes_eqb (strip_slash (squeeze v)) (snd kv)
+                                 | None => false end)
+                   (sandboxes_expected c t)
+    | None => true end.
 
   (* it ran in the task sandbox *)
-  Definition ok_cwd (o : obs) : bool :=
-    all_ranks o (fun _ ro => match o_probe ro with
-                            | Some (_, cwd, _) => bytes_eqb cwd (sbox_abs c t)
-                            | None => true end).
+  Definition okr_cwd (r : Z) (ro : robs) : bool :=
+    match o_probe ro with
+    | Some (_, cwd, _) => bytes_eqb cwd (sbox_abs c t)
+    | None => true end.
 
   (* pre_exec commands before, post_exec commands after the executable; it runs at most once *)
-  Definition ok_order (o : obs) : bool :=
-    all_ranks o (fun _ ro =>
-      (Nat.leb (n_exec (o_tr ro)) 1)
-      && match cmd_ids (after_exec (o_tr ro)) (all_pre_ids c t) with [] => true | _ => false end
-      && match n_exec (o_tr ro) with
-         | O => match cmd_ids (o_tr ro) (all_post_ids t) with [] => true | _ => false end
-         | _ => match cmd_ids (before_exec (o_tr ro)) (all_post_ids t) with [] => true | _ => false end
-         end).
+  Definition okr_order (r : Z) (ro : robs) : bool :=
+    (Nat.leb (n_exec (o_tr ro)) 1)
+    && is_nil (cmd_ids (after_exec (o_tr ro)) (all_pre_ids c t))
+    && match n_exec (o_tr ro) with
+       | O => is_nil (cmd_ids (o_tr ro) (all_post_ids t))
+       | _ => is_nil (cmd_ids (before_exec (o_tr ro)) (all_post_ids t))
+       end.
 
   (* on rank r exactly the entries for all ranks and for rank r run, in the described order, up to a failure *)
-  Definition ok_per_rank (o : obs) : bool :=
-    all_ranks o (fun r ro =>
-      match o_tr ro with
-      | [] => true                                       (* this rank was never started *)
-      | tr =>
-          eqb_list Z.eqb (cmd_ids tr (all_pre_ids c t)) (until_fail (pre_stubs c t r))
-          && eqb_list Z.eqb (cmd_ids tr (all_post_ids t))
-                      (match n_exec tr with O => [] | _ => until_fail (post_stubs t r) end)
-      end).
+  Definition okr_per_rank (r : Z) (ro : robs) : bool :=
+    match o_tr ro with
+    | [] => true                                       (* this rank was never started *)
+    | tr =>
+        eqb_list Z.eqb (cmd_ids tr (all_pre_ids c t)) (until_fail (pre_stubs c t r))
+        && eqb_list Z.eqb (cmd_ids tr (all_post_ids t))
+                    (match n_exec tr with O => [] | _ => until_fail (post_stubs t r) end)
+    end.
 
   (* a failing pre_exec (or pre_launch) command prevents the executable from running *)
-  Definition ok_pre_blocks (o : obs) : bool :=
-    all_ranks o (fun r ro =>
-      (launched t && all_ok (pre_stubs c t r)) || (Nat.eqb (n_exec (o_tr ro)) 0 && match o_probe ro with None => true | _ => false end)).
+  Definition okr_pre_blocks (r : Z) (ro : robs) : bool :=
+    (launched t && all_ok (pre_stubs c t r))
+    || (Nat.eqb (n_exec (o_tr ro)) 0 && match o_probe ro with None => true | _ => false end).
 
-  (* exit status: the executable's, unless a pre/post command failed (then 1) *)
-  Definition ok_exit (o : obs) : bool :=
-    (o_lrc o =? want_launch_rc c t rcs)
-    && all_ranks o (fun r ro => match o_rc ro with
-                               | Some x => x =? want_rank_rc c t rcs r
-                               | None => true end).
+  (* exit status of the rank's script: the executable's, unless a pre/post command failed (then 1) *)
+  Definition okr_rc (r : Z) (ro : robs) : bool :=
+    match o_rc ro with
+    | Some x => x =? want_rank_rc c t rcs r
+    | None => true end.
+
+  (* unless a pre command failed, the executable runs exactly once *)
+  Definition okr_runs (r : Z) (ro : robs) : bool :=
+    negb (launched t && all_ok (pre_stubs c t r))
+    || (Nat.eqb (n_exec (o_tr ro)) 1 && match o_probe ro with Some _ => true | None => false end).
+
+  Definition ok_argv o := all_ranks o okr_argv.
+  Definition ok_env o := all_ranks o okr_env.
+  Definition ok_rp_env o := all_ranks o okr_rp_env.
+  Definition ok_cwd o := all_ranks o okr_cwd.
+  Definition ok_order o := all_ranks o okr_order.
+  Definition ok_per_rank o := all_ranks o okr_per_rank.
+  Definition ok_pre_blocks o := all_ranks o okr_pre_blocks.
+  Definition ok_exit (o : obs) : bool := (o_lrc o =? want_launch_rc c t rcs) && all_ranks o okr_rc.
+  Definition ok_runs (o : obs) : bool :=
+    (Z.of_nat (List.length (o_ranks o)) =? t_ranks t) && all_ranks o okr_runs.
 
   (* stdout / stderr of the ranks that ran are in the described files
      (other lines on stderr, like rp_error's message, are not constrained) *)
@@ -303,13 +316,6 @@ Section Clauses.
             && perm_eqb line_eqb (filter is_exe_line le) (map (fun rr => LErr (dec (fst rr))) ran)
         | _, _ => false
         end).
-
-  (* unless a pre command failed, the executable runs exactly once on every rank *)
-  Definition ok_runs (o : obs) : bool :=
-    (Z.of_nat (List.length (o_ranks o)) =? t_ranks t)
-    && all_ranks o (fun r ro =>
-         negb (launched t && all_ok (pre_stubs c t r))
-         || (Nat.eqb (n_exec (o_tr ro)) 1 && match o_probe ro with Some _ => true | None => false end)).
 
   Definition clauses (o : obs) : list bool :=
     [ ok_argv o; ok_env o; ok_rp_env o; ok_cwd o; ok_order o; ok_per_rank o; ok_pre_blocks o;
